@@ -646,6 +646,15 @@ class Interpreter:
         leaves = sorted([self._statechart.state_for(name) for name in leaves_names],
                         key=lambda s: (-self._statechart.depth_for(s.name), s.name))
 
+        # Enter the missing children of a partially entered orthogonal state (e.g., when the
+        # target of a transition is nested in one of its children)
+        for name in sorted(names, key=lambda s: (self._statechart.depth_for(s), s)):
+            if isinstance(self._statechart.state_for(name), OrthogonalState):
+                children = self._statechart.children_for(name)
+                missing = [child for child in children if child not in names]
+                if 0 < len(missing) < len(children):
+                    return MicroStep(entered_states=sorted(missing))
+
         for leaf in leaves:
             if isinstance(
                     leaf, FinalState) and self._statechart.parent_for(
